@@ -51,7 +51,6 @@ class HState:
         self.w = World(cfg["template"], prefix, mode=cfg.get("mode", "new"), loopopts=cfg.get("loopopts"))
         if cfg.get("defer_recording"):
             self.w.sched.recording = False  # set-up runs under the default schedule, unrecorded
-        self.w.start()
         self.model = Store()
         for name, ms in cfg["init"].items():
             self.model.add_mbox(name, ms, uidnext=cfg.get("uidnext", {}).get(name),
@@ -77,6 +76,7 @@ class HState:
 
         _mb.Mailbox.FOLDER_SIZE_PACK_LIMIT = cfg.get("pack_limit", 100)
         _mb.Mailbox.FOLDER_RATIO_PACK_LIMIT = cfg.get("pack_ratio", 0.8)
+        self.w.start()
         for ev in cfg.get("prelude", ()):
             self.apply(ev)
         self.history = []
@@ -737,6 +737,8 @@ class HState:
     def observe(self, checks=("C01", "C02", "C03", "C04", "C05", "C13")):
         if self.dead:
             return
+        if self.cfg.get("observe_mode") == "restart-diff":
+            return self.observe_restart_diff()
         # (a) every live selected session: NOOP; FETCH 1:* (UID) must give the model list
         for sn, ms in list(self.model.sess.items()):
             if ms.dead or ms.selected is None:
@@ -770,13 +772,35 @@ class HState:
         if "C13" in checks:
             self.compare_mh()
 
-    def observe_store(self, sname="O"):
+    def observe_list(self, sname="O"):
+        """LIST "" * and LSUB "" * as {name: frozenset(attributes)} (minus \\Marked/\\Unmarked)."""
         o = self.sess(sname)
         o.on_resp = None
         out = {}
-        for name, mb in self.model.mboxes.items():
-            if mb.noselect:
-                continue
+        for cmd in ("LIST", "LSUB"):
+            r, resps = o.do(f'{cmd} "" "*"')
+            d = {}
+            dup = []
+            for x in resps:
+                if x.kind == "untagged" and x.typ == cmd and len(x.data) >= 3:
+                    nm = x.data[2]
+                    nm = bytes(nm).decode("latin-1") if isinstance(nm, bytes) else str(nm)
+                    at = frozenset(str(a) for a in (x.data[0] or []) if str(a) not in ("\\Marked", "\\Unmarked"))
+                    if nm in d:
+                        dup.append(nm)
+                    d[nm] = at
+            out[cmd] = d
+            out[cmd + "_dups"] = dup
+            out[cmd + "_status"] = r.typ if r else None
+        return out
+
+    def observe_store(self, sname="O", names=None):
+        o = self.sess(sname)
+        o.on_resp = None
+        out = {}
+        if names is None:
+            names = [n for n, mb in self.model.mboxes.items() if not mb.noselect]
+        for name in names:
             rec = {"exists": True}
             r, resps = o.do(f"STATUS {_q(name)} (MESSAGES UIDNEXT UIDVALIDITY UNSEEN)")
             if r is None or r.typ != "OK":
@@ -827,6 +851,66 @@ class HState:
             rec["msgs"] = ms
             out[name] = rec
         return out
+
+    def observe_restart_diff(self):
+        """C12: observe, restart (orderly), observe again, compare -- no hand-written expectation."""
+        def snap(tag):
+            ls = self.observe_list(tag)
+            names = sorted(n for n, at in ls["LIST"].items() if "\\Noselect" not in at)
+            st = self.observe_store(tag, names)
+            for rec in st.values():
+                for m in rec.get("msgs", []):
+                    if "flags" in m:
+                        m["flags"] = sorted(norm_flags(m["flags"]))
+                rec.pop("seqs", None)
+            return {"list": ls, "store": st}
+
+        before = snap("O1")
+        how = self.cfg.get("restart_how", "shutdown")
+        self.log(f"ENV: orderly restart ({how})")
+        try:
+            if how == "expire":
+                self.w.expire_restart()
+            else:
+                self.w.restart()
+        except Exception as e:
+            self.fail("C12.restart-failed", {"exc": type(e).__name__, "how": how}, None, repr(e))
+            return
+        self.model.restart()
+        after = snap("O2")
+        from .seams import ctx as _ctx  # noqa
+        special = {"Archive", "Deleted Messages", "Drafts", "Junk", "Sent Messages"}
+        for kind in ("LIST", "LSUB"):
+            b, a = before["list"][kind], after["list"][kind]
+            for nm in sorted(set(b) | set(a)):
+                if nm in special and nm not in b and kind == "LIST":
+                    continue  # a missing SPECIAL-USE mailbox may be created again at start-up
+                if b.get(nm) != a.get(nm):
+                    self.fail("C12.list-differs", {"cmd": kind, "what": "attrs" if nm in a and nm in b else ("lost" if nm in b else "new")},
+                              {nm: sorted(b[nm]) if nm in b else None}, {nm: sorted(a[nm]) if nm in a else None})
+        for nm in sorted(set(before["store"]) | set(after["store"])):
+            b, a = before["store"].get(nm), after["store"].get(nm)
+            if b is None:
+                if nm not in special:
+                    self.fail("C12.mailbox-appeared", {}, None, nm)
+                continue
+            if a is None:
+                self.fail("C12.mailbox-lost", {}, nm, None)
+                continue
+            for k in ("exists", "UIDVALIDITY", "UIDNEXT", "exists_n", "uid_search_all"):
+                if b.get(k) != a.get(k):
+                    self.fail("C12.mailbox-differs", {"field": k}, {nm: b.get(k)}, {nm: a.get(k)})
+            sb = {k: v for k, v in (b.get("status") or {}).items()}
+            sa = {k: v for k, v in (a.get("status") or {}).items()}
+            if sb != sa:
+                self.fail("C12.status-differs", {"fields": sorted(k for k in set(sb) | set(sa) if sb.get(k) != sa.get(k))}, {nm: sb}, {nm: sa})
+            mb_, ma_ = b.get("msgs", []), a.get("msgs", [])
+            if [(m["uid"], m["cid"]) for m in mb_] != [(m["uid"], m["cid"]) for m in ma_]:
+                self.fail("C12.messages-differ", {}, [(m["uid"], m["cid"]) for m in mb_], [(m["uid"], m["cid"]) for m in ma_])
+            elif [m.get("flags") for m in mb_] != [m.get("flags") for m in ma_]:
+                self.fail("C12.flags-differ", {}, [m.get("flags") for m in mb_], [m.get("flags") for m in ma_])
+            elif [m.get("idate") for m in mb_] != [m.get("idate") for m in ma_]:
+                self.fail("C12.internaldate-differs", {}, None, None)
 
     def compare_store(self, obs: dict, checks):
         for name, mb in self.model.mboxes.items():
